@@ -1,4 +1,23 @@
 import GqlVerif.Proofs.C04SurjectiveExpress
+/-!
+# C04 — `input_expressible` for the module `responseForQuery` emits
+
+* `decorateType_inv`, `inputFieldType_inv`, **`inputItem_inv`**, `variableType_inv`, **`variablesItems_head`**: closed
+  forms (normalization `none`): a successful `inputItem c i` *is* `inputItemSpec c i`, the first `Variables` item *is*
+  `variablesSpec c op`; success alone gives `wf` (no `!!`) and nullable `@oneOf` fields.
+* **`inputEnv_of_module`**: the emitted module, completed by `externsFor c` (consumer types: `String` for every custom
+  scalar path and extern enum), satisfies `InputEnv` for the used set of `allUsedTypes`.
+* **`input_expressible`** (per declared variable) and **`variables_expressible`** (whole assignment, `VarsValid`,
+  `canonVars`), `no_variables_expressible` (`struct Variables;`).
+
+Hypotheses of the module-level theorems (all decidable on a concrete instance, see `ex_hyps`):
+`hnorm`, `hkwI/S/E`, `hwf : OutputOnly`, `hrel : InputFieldsRelevant`, `hvars` — those of
+`C02.module_well_scoped_partial`; `hdef : (Scope.defines items).Nodup` and `hmem : ∀ it ∈ items, (memberIdents it).Nodup`
+— the other components of `Scope.wellScoped` (the module compiles: no duplicate definition — equivalently
+`C02.NoClash`, `C02.defines_nodup_iff` — and no duplicate member); `hprim`: no item is named `String`/`i64`/`f64`/`bool`
+(the model resolves these names first, Rust would let the item shadow them); `hfree : ExternsFree`: the paths the
+consumer supplies are not shadowed by an item; `hint : L.intOk n → inI64 n` (true for 32- and 64-bit).
+-/
 namespace GqlVerif
 namespace C04S
 open Codegen Serde C13
@@ -38,13 +57,13 @@ theorem decorateType_inv {b : RTy} {n : String} {quals : List Qual} {r : RTy}
 
 theorem inputFieldType_inv {c : Ctx} (hnorm : c.o.normalization = .none) {ty : FieldType} {quals : List Qual} {r : RTy}
     (h : inputFieldType c ty quals = .ok r) :
-    wf (ofQuals "" quals) = true ∧ r = fieldRTy c ty.id (ofQuals "" quals) := by
+    wf (ofQuals "" quals) = true ∧ r = fieldRTy c ty.id (ofQuals "" quals) ∧ ∃ tn, c.s.typeName ty.id = .ok tn := by
   unfold inputFieldType at h
   obtain ⟨tn, htn, h⟩ := C02.bind_ok h
   obtain ⟨t0, ht0, h⟩ := C02.bind_ok h
   simp only [pure, Except.pure, Except.ok.injEq] at h
   obtain ⟨hw, rfl⟩ := decorateType_inv (n := "") ht0
-  refine ⟨hw, ?_⟩
+  refine ⟨hw, ?_, tn, htn⟩
   rw [← h, hnorm, C02.fieldType_none]
   unfold fieldRTy boxed
   rw [C02.tnOf_ok htn]
@@ -65,7 +84,8 @@ theorem mapM_eq_map {ε α β : Type} {f : α → Except ε β} (g : α → β) 
 theorem inputItem_inv {c : Ctx} (hnorm : c.o.normalization = .none) {i : StoredInput} {it : Item}
     (hkw : keywordReplace i.name = i.name) (h : inputItem c i = .ok it) :
     it = inputItemSpec c i ∧
-    ∀ p ∈ i.fields, wf (gty p.2) = true ∧ (i.isOneOf = true → isNN (gty p.2) = false) := by
+    ∀ p ∈ i.fields, wf (gty p.2) = true ∧ (i.isOneOf = true → isNN (gty p.2) = false) ∧
+      ∃ tn, c.s.typeName p.2.id = .ok tn := by
   rw [inputItem.eq_1] at h
   have hname : keywordReplace (c.o.normalization.inputName c.cs i.name) = i.name := by
     rw [hnorm]; exact hkw
@@ -79,20 +99,20 @@ theorem inputItem_inv {c : Ctx} (hnorm : c.o.normalization = .none) {i : StoredI
           let t ← inputFieldType c p.2 (.required :: p.2.quals)
           pure ({ name := keywordReplace (c.cs.camel p.1), rename := fieldRename p.1 (keywordReplace (c.cs.camel p.1)),
                   payload := some t } : RVariant)) = Except.ok y →
-        y = inputVariant c p ∧ wf (.nonNull (gty p.2)) = true := by
+        y = inputVariant c p ∧ wf (.nonNull (gty p.2)) = true ∧ ∃ tn, c.s.typeName p.2.id = .ok tn := by
       intro p _ y hy
       obtain ⟨t, ht, hy⟩ := C02.bind_ok hy
       simp only [pure, Except.pure, Except.ok.injEq] at hy
-      obtain ⟨hw, rfl⟩ := inputFieldType_inv hnorm ht
-      exact ⟨hy.symm, hw⟩
+      obtain ⟨hw, rfl, htn⟩ := inputFieldType_inv hnorm ht
+      exact ⟨hy.symm, hw, htn⟩
     refine ⟨?_, ?_⟩
     · rw [if_pos hone, ← h]
       congr 1
       exact mapM_eq_map (inputVariant c) hvs (fun p hp y hy => (hfield p hp y hy).1)
     · intro p hp
       obtain ⟨y, _, hy⟩ := C02.mapM_ok_of_mem hvs p hp
-      have hw := (hfield p hp y hy).2
-      refine ⟨wf_nonNull hw, fun _ => ?_⟩
+      have hw := (hfield p hp y hy).2.1
+      refine ⟨wf_nonNull hw, fun _ => ?_, (hfield p hp y hy).2.2⟩
       cases hg : gty p.2 <;> simp_all [wf, isNN]
   · rename_i hone
     obtain ⟨fs, hfs, h⟩ := C02.bind_ok h
@@ -101,19 +121,19 @@ theorem inputItem_inv {c : Ctx} (hnorm : c.o.normalization = .none) {i : StoredI
           let t ← inputFieldType c p.2 p.2.quals
           pure ({ rust := keywordReplace (c.cs.snake p.1), rename := fieldRename p.1 (keywordReplace (c.cs.snake p.1)),
                   ty := t, skipNone := c.o.skipNone && p.2.isOptional } : RField)) = Except.ok y →
-        y = inputField c p ∧ wf (gty p.2) = true := by
+        y = inputField c p ∧ wf (gty p.2) = true ∧ ∃ tn, c.s.typeName p.2.id = .ok tn := by
       intro p _ y hy
       obtain ⟨t, ht, hy⟩ := C02.bind_ok hy
       simp only [pure, Except.pure, Except.ok.injEq] at hy
-      obtain ⟨hw, rfl⟩ := inputFieldType_inv hnorm ht
-      exact ⟨hy.symm, hw⟩
+      obtain ⟨hw, rfl, htn⟩ := inputFieldType_inv hnorm ht
+      exact ⟨hy.symm, hw, htn⟩
     refine ⟨?_, ?_⟩
     · rw [if_neg hone, ← h]
       congr 1
       exact mapM_eq_map (inputField c) hfs (fun p hp y hy => (hfield p hp y hy).1)
     · intro p hp
       obtain ⟨y, _, hy⟩ := C02.mapM_ok_of_mem hfs p hp
-      exact ⟨(hfield p hp y hy).2, fun h => absurd h hone⟩
+      exact ⟨(hfield p hp y hy).2.1, fun h => absurd h hone, (hfield p hp y hy).2.2⟩
 
 
 /-! ### `Variables` -/
@@ -342,7 +362,8 @@ theorem inputEnv_of_module (c : Ctx) (op : Nat) (items : List Item)
   -- facts about a used input type
   have hinput : ∀ k i, .input k ∈ u.types → c.s.inputs[k]? = some i →
       inputItemSpec c i ∈ builtinAliases ++ S ++ E ++ I ∧
-      ∀ p ∈ i.fields, wf (gty p.2) = true ∧ (i.isOneOf = true → isNN (gty p.2) = false) := by
+      ∀ p ∈ i.fields, wf (gty p.2) = true ∧ (i.isOneOf = true → isNN (gty p.2) = false) ∧
+        ∃ tn, c.s.typeName p.2.id = .ok tn := by
     intro k i hk hi
     obtain ⟨it, hit, hfit⟩ := C02.inputItems_defines hI hk hi
     obtain ⟨rfl, hq⟩ := inputItem_inv hnorm (hkwI i (List.mem_of_getElem? hi)) hfit
@@ -395,7 +416,7 @@ theorem inputEnv_of_module (c : Ctx) (op : Nat) (items : List Item)
   · intro k i hk hi p hp
     have hr : C02.Relevant p.2.id := C02.InputFieldsRelevant.spec hrel i (List.mem_of_getElem? hi) p hp
     have hq := (hinput k i hk hi).2 p hp
-    exact ⟨C02.used_inputs_closed c.s c.q op u hwf hu k hk i hi p hp hr, hr, hq.1, hq.2⟩
+    exact ⟨C02.used_inputs_closed c.s c.q op u hwf hu k hk i hi p hp hr, hr, hq.1, hq.2.1, hq.2.2⟩
   · intro k i hk hi
     cases hone : i.isOneOf
     · exact nodup_fst_of_comp (fun n => keywordReplace (c.cs.snake n)) (fun p : String × FieldType => p.1)
